@@ -217,9 +217,9 @@ theorem solve_sound (rows : List Row) (w0 : Nat) : ∀ (fuel : Nat) (em : Mode) 
             · cases h
             · rename_i v _
               have hE : GoodXP rows w0 (extendCrossProduct
-                  (List.foldl insertDb [] (List.filter (fun df => decide (Py.idx df.factoid ↑v = 0)) (flat db))) true v
-                  (List.filter (fun df => decide (Py.idx df.factoid ↑v > 0)) (flat db))
-                  (List.filter (fun df => decide (Py.idx df.factoid ↑v < 0)) (flat db))) := by
+                  (List.foldl insertDb [] (List.filter (fun df => decide (coeffAt df.factoid v = 0)) (flat db))) true v
+                  (List.filter (fun df => decide (coeffAt df.factoid v > 0)) (flat db))
+                  (List.filter (fun df => decide (coeffAt df.factoid v < 0)) (flat db))) := by
                 apply extendCrossProduct_good
                 · intro u hu; exact hgood u (List.mem_of_mem_filter hu)
                 · intro df hdf
